@@ -44,4 +44,117 @@ theorem twoTxn_size (t : TwoPC.FTxn) :
   rw [twoRecs_size]
   simp [TwoPC.transHdrLen]
 
+
+/-! ### reachable states of C05: `_pos` is the computed size of the committed transactions -/
+
+def txnSize2 (t : TwoPC.FTxn) : Nat :=
+  TwoPC.transHdrLen + t.ul + t.dl + t.el + TwoPC.recsSize t.recs + 8
+
+def logSize2 (l : List TwoPC.FTxn) : Nat := 4 + (l.map txnSize2).sum
+
+structure PosInv (s : TwoPC.State) : Prop where
+  pos : s.pos = logSize2 s.txns
+  thl : s.txn ≠ none → s.thl = TwoPC.transHdrLen + s.ude.1 + s.ude.2.1 + s.ude.2.2
+
+/-- the part of the state `PosInv` reads -/
+def pv (s : TwoPC.State) : List TwoPC.FTxn × Nat × Nat × (Nat × Nat × Nat) × Option TwoPC.TxnId :=
+  (s.txns, s.pos, s.thl, s.ude, s.txn)
+
+theorem posInv_of_pv {s s' : TwoPC.State} (h : pv s' = pv s) (hi : PosInv s) : PosInv s' := by
+  simp only [pv, Prod.mk.injEq] at h
+  obtain ⟨h1, h2, h3, h4, h5⟩ := h
+  exact ⟨by rw [h1, h2]; exact hi.pos, by rw [h3, h4, h5]; exact hi.thl⟩
+
+theorem posInv_init : PosInv {} := ⟨rfl, fun h => absurd rfl h⟩
+
+theorem stage_pv (s : TwoPC.State) (oid del dlen tag blob) :
+    pv (TwoPC.stage s oid del dlen tag blob).1 = pv s := by
+  unfold TwoPC.stage; simp only []
+  repeat' split
+  all_goals rfl
+
+theorem doStore_pv (s : TwoPC.State) (t oid ser dlen tag blob) :
+    pv (TwoPC.doStore s t oid ser dlen tag blob).1 = pv s := by
+  unfold TwoPC.doStore; simp only []
+  repeat' split
+  all_goals first
+    | rfl
+    | exact stage_pv _ _ _ _ _ _
+
+theorem doDelete_pv (s : TwoPC.State) (t oid ser) : pv (TwoPC.doDelete s t oid ser).1 = pv s := by
+  unfold TwoPC.doDelete
+  repeat' split
+  all_goals first
+    | rfl
+    | exact stage_pv _ _ _ _ _ _
+
+theorem doVote_pv (s : TwoPC.State) (t) : pv (TwoPC.doVote s t).1 = pv s := by
+  unfold TwoPC.doVote; simp only []
+  repeat' split
+  all_goals rfl
+
+theorem doBegin_posInv (s : TwoPC.State) (t tid st ul dl el) (h : PosInv s) :
+    PosInv (TwoPC.doBegin s t tid st ul dl el).1 := by
+  unfold TwoPC.doBegin; simp only []
+  repeat' split
+  all_goals first
+    | exact h
+    | exact ⟨h.pos, fun _ => rfl⟩
+
+theorem doAbort_posInv (s : TwoPC.State) (t) (h : PosInv s) : PosInv (TwoPC.doAbort s t).1 := by
+  unfold TwoPC.doAbort; simp only []
+  split
+  · exact h
+  · exact ⟨h.pos, fun hn => absurd rfl hn⟩
+
+theorem doFinish_posInv (s : TwoPC.State) (t) (h : PosInv s) : PosInv (TwoPC.doFinish s t).1 := by
+  unfold TwoPC.doFinish; simp only []
+  split
+  · exact h
+  · rename_i ht
+    split
+    · exact h
+    · rename_i hv
+      have hv' : TwoPC.voted s := Classical.not_not.1 hv
+      split
+      · exact ⟨h.pos, fun hn => absurd rfl hn⟩
+      · refine ⟨?_, fun hn => absurd rfl hn⟩
+        have ht' : s.txn ≠ none := by
+          intro e; rw [e] at ht; exact ht (by simp)
+        have h1 := h.thl ht'
+        have h2 := hv'.2.2
+        have h3 := h.pos
+        show s.nextpos = logSize2 (_ :: s.txns)
+        simp only [logSize2, List.map_cons, List.sum_cons, txnSize2] at h3 ⊢
+        omega
+
+theorem posInv_armed (s : TwoPC.State) (a) (h : PosInv s) : PosInv { s with armed := a } := ⟨h.pos, h.thl⟩
+
+theorem step_posInv (s : TwoPC.State) (op : TwoPC.Op) (h : PosInv s) : PosInv (TwoPC.step s op).1 := by
+  unfold TwoPC.step
+  split
+  · exact h
+  · cases op with
+    | fault k => exact posInv_armed _ _ h
+    | «begin» t tid st ul dl el => exact posInv_armed _ _ (doBegin_posInv s t tid st ul dl el h)
+    | store t oid ser dlen tag => exact posInv_armed _ _ (posInv_of_pv (doStore_pv s t oid ser dlen tag false) h)
+    | storeBlob t oid ser dlen tag => exact posInv_armed _ _ (posInv_of_pv (doStore_pv s t oid ser dlen tag true) h)
+    | delete t oid ser => exact posInv_armed _ _ (posInv_of_pv (doDelete_pv s t oid ser) h)
+    | vote t => exact posInv_armed _ _ (posInv_of_pv (doVote_pv s t) h)
+    | finish t => exact posInv_armed _ _ (doFinish_posInv s t h)
+    | abort t => exact posInv_armed _ _ (doAbort_posInv s t h)
+
+theorem run_posInv (s : TwoPC.State) (ops : List TwoPC.Op) (h : PosInv s) : PosInv (TwoPC.run s ops) := by
+  induction ops generalizing s with
+  | nil => exact h
+  | cons o os ih => exact ih _ (step_posInv s o h)
+
+/-- the computed size of C05's committed transactions is C04's `logEnd` of the translated log -/
+theorem logSize2_eq_logEnd (l : List TwoPC.FTxn) : logSize2 l = FileStore.logEnd (l.map twoTxn) := by
+  induction l with
+  | nil => rfl
+  | cons t l ih =>
+    simp only [logSize2, List.map_cons, List.sum_cons, FileStore.logEnd, twoTxn_size] at ih ⊢
+    rw [← ih]; simp only [txnSize2]; omega
+
 end Proofs.Links
